@@ -75,8 +75,10 @@ class Elab:
                 if any(child is x for x in path):
                     raise OverflowError("recursive hierarchy")
                 cref = child.reference
-                if cref is not None:
-                    sub = path + (child,)
+                sub = path + (child,)
+                if cref is None:
+                    stack.append(sub)  # an unreferenced instance still is an occurrence (a dead end)
+                else:
                     for port in cref.ports:
                         for ip in port.pins:
                             op = child.pins.get(ip)
